@@ -138,7 +138,7 @@ def run(c):
         # stream group: every rule of the file is judged from its own description (id = 1000 * case + position); equal descriptions once
         memo = {}
         for x in cases:
-            if x["stream"] == "group" and x["obs"]["kind"] in ("ok", "error"):
+            if x["stream"] == "group" and x["obs"]["kind"] in ("ok", "error") and not x.get("no_model"):
                 for j, r in enumerate(r for g in (x.get("groups") or []) for r in g["rules"]):
                     key = json.dumps(r, sort_keys=True)
                     if key in memo:
